@@ -219,6 +219,36 @@ def make_builtins(it):
         return None
     reg("$assume", f_assume)
 
+    def f_uf_bytes(it, args, kw):
+        """uf_bytes(name, fn, data, maxlen, outlen): fn(data) kept OPAQUE (an uninterpreted function of
+        the length and the first maxlen cells) so that equal arguments give equal results by
+        congruence without unfolding fn; exact when data is concrete"""
+        name, fn, data, maxlen, outlen = args
+        t = ops.bytes_term(it, data)
+        if t is None:
+            raise PyRaise("TypeError", "uf_bytes")
+        if t.cells is not None and all(is_conc(c) for c in t.cells):
+            return it.call(fn, [data], {})
+        if not it.ctx.branch(cmp("<=", t.length, maxlen)):
+            raise Unsupported("uf_bytes: argument longer than %d" % maxlen)
+        key = ("uf", name, maxlen, outlen)
+        f = it.ctx.ghost.get(key)
+        if f is None:
+            f = z3.Function("uf!" + name, *([z3.BitVecSort(64)] + [z3.BitVecSort(8)] * maxlen + [z3.BitVecSort(8 * outlen)]))
+            it.ctx.ghost[key] = f
+        cells = []
+        for k in range(maxlen):
+            inside = cmp("<", k, t.length)
+            if inside is False:
+                cells.append(z3.BitVecVal(0, 8))
+                continue
+            c = t.get(k) if inside is True else i_ite(inside, t.get(k), 0)
+            cells.append(z3.simplify(bts.cell_to_bv8(c)))    # normal form: equal arguments become identical terms
+        r = f(z3.simplify(sym.bv(t.length)), *cells)
+        out = [bts.cell_from_bv8(z3.Extract(8 * (outlen - 1 - j) + 7, 8 * (outlen - 1 - j), r)) for j in range(outlen)]
+        return VBytes(bts.from_cells(out))
+    reg("$uf_bytes", f_uf_bytes)
+
     def f_unreachable(it, args, kw):
         raise PyRaise("SpecUnreachable")
     reg("$unreachable", f_unreachable)
@@ -419,6 +449,15 @@ def call_method(it, recv, name, args, kw):
         if name == "to_bytes":
             return int_to_bytes(it, sym.as_int(recv), args, kw)
         raise Unsupported("int." + name)
+    if isinstance(recv, tuple):
+        if name == "index":
+            for k, x in enumerate(recv):
+                if ctx.branch(ops.values_eq(it, x, args[0])):
+                    return k
+            raise PyRaise("ValueError", "tuple.index(x): x not in tuple")
+        if name == "count":
+            return sum(1 for x in recv if ctx.branch(ops.values_eq(it, x, args[0])))
+        raise Unsupported("tuple." + name)
     if isinstance(recv, str):
         if name == "format":
             return VStr("fmt")
